@@ -1,10 +1,15 @@
 #!/usr/bin/env python3
-"""Runs the repository's pinned test command and checks that every test of BASELINE.stable_pass still passes."""
+"""usage: repo_tests.py [tree]
+Runs the repository's pinned test command and checks that every test of BASELINE.stable_pass still passes."""
 import json, subprocess, sys, tempfile, os, xml.etree.ElementTree as ET
 base = json.load(open("/root/.vp/BASELINE.json"))
 out = tempfile.mktemp(suffix=".xml", dir="/tmp")
 cmd = base["cmd"].replace("<file>", out)
 env = dict(os.environ); env.pop("ESP_IDF_KCONFIG_VERIF", None)
+if len(sys.argv) > 1:  # run against another checkout (scratch copy with a mutant applied)
+    tree = os.path.abspath(sys.argv[1])
+    cmd = cmd.replace("cd /repo", f"cd {tree}")
+    env["PYTHONPATH"] = tree
 p = subprocess.run(cmd, shell=True, env=env, capture_output=True, text=True)
 passed = set()
 for tc in ET.parse(out).getroot().iter("testcase"):
